@@ -52,7 +52,11 @@ def _runtime(case):
         from synkit.Chem.Reaction.aam_validator import AAMValidator
         opts = dict(case.get("opts", {}))
         for nj in case["jobs"]:
-            res = AAMValidator.validate_smiles([dict(d) for d in case["data"]], ground_truth_col="gt", mapped_cols=["m1", "m2"],
+            rows = [dict(d) for d in case["data"]]
+            if case.get("form") == "df":            # the documented DataFrame input form
+                import pandas as pd
+                rows = pd.DataFrame(rows, columns=["gt", "m1", "m2"])
+            res = AAMValidator.validate_smiles(rows, ground_truth_col="gt", mapped_cols=["m1", "m2"],
                                                check_method=case.get("method", "RC"), n_jobs=nj, **opts)
             vals.append(["n_jobs=%d" % nj, json.loads(json.dumps(res, default=str))])
         # the reference every worker count is compared with: row by row through the single-pair entry point
@@ -66,7 +70,16 @@ def _runtime(case):
         from synkit.Chem.Reaction.balance_check import BalanceReactionCheck
         for nj in case["jobs"]:
             chk = BalanceReactionCheck(n_jobs=nj)
-            if case.get("form") == "strings":      # list of plain reaction strings (parse_input wraps each one)
+            if case.get("form") == "mixed":
+                # parse_input's item kinds in one list: plain strings, dicts with the reaction key, dicts WITHOUT it and foreign
+                # values (both silently skipped)
+                inp = []
+                for d in case["data"]:
+                    kd = d["kind"]
+                    inp.append(d["reactions"] if kd == "str" else {"reactions": d["reactions"], "n": d["n"]} if kd == "dict"
+                               else {"n": d["n"], "rxn": d["reactions"]} if kd == "nokey" else (None if d["n"] % 2 else 17))
+                b, u = chk.dicts_balance_check(inp, "reactions") if nj % 2 else chk.dicts_balance_check(inp, rsmi_column="reactions")
+            elif case.get("form") == "strings":      # list of plain reaction strings (parse_input wraps each one)
                 b, u = chk.dicts_balance_check([d["reactions"] for d in case["data"]])
             elif case.get("form") == "string":     # a single reaction string
                 b, u = chk.dicts_balance_check(case["data"][0]["reactions"])
